@@ -93,6 +93,14 @@ type c06case struct {
 	scripts          []attemptScript
 }
 
+// attempts: the predicate Attempts() < k allows k invocations, the built-in cap DefaultMaxRetryAttempts+1.
+func (c c06case) attempts() int {
+	if c.k > buffer.DefaultMaxRetryAttempts+1 {
+		return buffer.DefaultMaxRetryAttempts + 1
+	}
+	return c.k
+}
+
 func (c c06case) String() string {
 	return fmt.Sprintf("mem=%d size=%d chunk=%d method=%s headers#%d retry=Attempts()<%d scripts=%v", c.mem, c.size, c.chunk, c.method, c.hs, c.k, c.scripts)
 }
@@ -168,7 +176,7 @@ func runC06(c c06case, rep *lib.Report) {
 		if attempt < len(c.scripts) {
 			sc = c.scripts[attempt]
 		}
-		last := attempt >= c.k-1
+		last := attempt >= c.attempts()-1
 		attempt++
 		s := seenReq{method: r.Method, url: r.URL.String(), contentLength: r.ContentLength, te: strings.Join(r.TransferEncoding, ","), teHeader: r.Header.Get("Transfer-Encoding")}
 		hh := r.Header.Clone()
@@ -198,6 +206,8 @@ func runC06(c c06case, rep *lib.Report) {
 		}
 		seen = append(seen, s)
 		if !last {
+			// a handler that is done with the request closes its body (http.Transport and the forwarder always do)
+			r.Body.Close()
 			mutate(r, sc.mutation)
 			w.WriteHeader(502)
 			w.Write([]byte("failed attempt"))
@@ -244,8 +254,8 @@ func runC06(c c06case, rep *lib.Report) {
 		rep.Violate("C06:panic:"+framing, fmt.Sprintf("%v: panic %v", c, rec.Panic), what())
 		return
 	}
-	if len(seen) != c.k {
-		rep.Violate("C06:attempt-count", fmt.Sprintf("%v: handler invoked %d times, want %d (status %d)", c, len(seen), c.k, rec.Code), what())
+	if len(seen) != c.attempts() {
+		rep.Violate("C06:attempt-count", fmt.Sprintf("%v: handler invoked %d times, want %d (status %d)", c, len(seen), c.attempts(), rec.Code), what())
 		return
 	}
 	if c.size > c.mem && c.mem > 0 {
@@ -253,6 +263,9 @@ func runC06(c c06case, rep *lib.Report) {
 	}
 	if c.k > 1 {
 		rep.Count("cases_with_retries")
+	}
+	if c.attempts() == buffer.DefaultMaxRetryAttempts+1 {
+		rep.Count("cases_retried_up_to_the_built_in_cap")
 	}
 	if c.k > 1 || (c.size > c.mem && c.mem > 0) {
 		rep.Nontrivial++ // each case is distinct (one point of the product); counted once
@@ -319,6 +332,23 @@ func c06cases(tier string) []c06case {
 			}
 		}
 	}
+	// retried up to (and beyond what) the built-in cap (allows): predicates Attempts() < {10, 11, 12, 13}, every attempt
+	// but the last one fails after consuming, closing and mutating as its script says
+	for _, mem := range mems {
+		for _, size := range []int{mem - 1, mem + 1, 3 * mem} {
+			for _, chunk := range []int{0, 7, -1} {
+				for hs := range headerSets {
+					for _, k := range []int{10, 11, 12, 13} {
+						var scs []attemptScript
+						for i := 0; i < k; i++ {
+							scs = append(scs, scripts1[(i*5+hs+size)%len(scripts1)])
+						}
+						out = append(out, c06case{mem, size, chunk, "POST", hs, k, scs})
+					}
+				}
+			}
+		}
+	}
 	// default 1 MiB threshold: bodies around it (multi-megabyte in the thorough tier)
 	sizes := []int{1<<20 - 1, 1 << 20, 1<<20 + 1}
 	if tier == "thorough" {
@@ -336,8 +366,8 @@ func c06cases(tier string) []c06case {
 func RunC06(tier string, sh lib.Shard, rep *lib.Report) {
 	cases := c06cases(tier)
 	rep.Bounds["cases"] = len(cases)
-	rep.Rule = "full product memory threshold {8,64,default 1MiB} x body length {0,1,mem-1,mem,mem+1,3mem, ~1MiB(+)} x framing {Content-Length, chunked 1/7/whole, unknown length without chunking (HTTP/2 stream)} x method x header set x retry depth {1,2,3} x per-failed-attempt script (bytes consumed {0, half, all by Read, all by io.Copy/WriteTo} x 8 request mutations); request parsed by http.ReadRequest from raw bytes, real buffer.ServeHTTP on long-lived Buffer instances (one per threshold x retry depth, serving all its cases in sequence); every invocation's method/URL/headers/ContentLength/TransferEncoding/body compared with the client's original; every fifth case again with Verbose(true) and a formatting logger; non-trivial = cases with at least one retry or a spilled body"
-	rep.Require("requests_spilled_to_disk", "cases_with_retries", "cases_rerun_verbose", "uploads_broken_midway")
+	rep.Rule = "full product memory threshold {8,64,default 1MiB} x body length {0,1,mem-1,mem,mem+1,3mem, ~1MiB(+)} x framing {Content-Length, chunked 1/7/whole, unknown length without chunking (HTTP/2 stream)} x method x header set x retry depth {1,2,3; 10..13 around the built-in cap of 11 attempts} x per-failed-attempt script (bytes consumed {0, half, all by Read, all by io.Copy/WriteTo} x 8 request mutations, the request body closed by every failed attempt); request parsed by http.ReadRequest from raw bytes, real buffer.ServeHTTP on long-lived Buffer instances (one per threshold x retry depth, serving all its cases in sequence); every invocation's method/URL/headers/ContentLength/TransferEncoding/body compared with the client's original; every fifth case again with Verbose(true) and a formatting logger; non-trivial = cases with at least one retry or a spilled body"
+	rep.Require("requests_spilled_to_disk", "cases_with_retries", "cases_retried_up_to_the_built_in_cap", "cases_rerun_verbose", "uploads_broken_midway")
 	for i, c := range cases {
 		if !sh.Mine(i) {
 			continue
